@@ -231,24 +231,22 @@ Qed.
 Lemma run_test_unfold p :
   let '(st, ls, es) := run_cleanups {| t_details := Some (p_pre p); t_forced := false |} (phases p) in
   run_test p = {| r_raised := ls; r_after_ran := true;
-                  r_outcome := final_outcome (es ++ (if setup_raises p then []
-                                                     else if t_forced st then [XFail] else []))%list;
+                  r_outcome := final_outcome (es ++ (if t_forced st then [XFail] else []))%list;
                   r_details := t_details st |}.
 Proof.
   unfold run_test, phases, setup_raises. rewrite <- exc_of_is_some.
   destruct (run_body_shape (p_setup p) {| t_details := Some (p_pre p); t_forced := false |}) as [st1 E0].
   destruct (exc_of (p_setup p)) as [x|] eqn:X; simpl; rewrite E0, ?X.
-  - destruct (run_cleanups st1 (rev (p_cleanups p))) as [[st4 ls] es]. simpl. rewrite app_nil_r. reflexivity.
+  - destruct (run_cleanups st1 (rev (p_cleanups p))) as [[st4 ls] es]. simpl. reflexivity.
   - destruct (run_body_shape (p_body p) st1) as [st2 E1]. rewrite E1.
     destruct (run_body_shape (p_teardown p) st2) as [st3 E2]. rewrite E2.
     destruct (run_cleanups st3 (rev (p_cleanups p))) as [[st4 ls] es]. simpl.
     rewrite <- !app_assoc. reflexivity.
 Qed.
 
-(* what the model reports: the exception caught last, the forced failure being raised after everything else
-   unless setUp raised *)
+(* what the model reports: the exception caught last, the forced failure being raised after everything else *)
 Definition model_outcome (p : prog) : outcome :=
-  final_outcome (excs_of (phases p) ++ (if setup_raises p then [] else if expect_failed p then [XFail] else []))%list.
+  final_outcome (excs_of (phases p) ++ (if expect_failed p then [XFail] else []))%list.
 
 Lemma inv_start pre : NoDup (map fst pre) -> Inv pre pre.
 Proof.
@@ -270,13 +268,12 @@ Proof.
   rewrite O. unfold model_outcome, expect_failed. rewrite executed_all_exec. reflexivity.
 Qed.
 
-(* the outcome the model reports is one the statement allows, outside finding F21 *)
-Lemma model_outcome_ok p : setup_raises p && expect_failed p = false -> outcome_okb p (model_outcome p) = true.
+(* the outcome the model reports is one the statement allows *)
+Lemma model_outcome_ok p : outcome_okb p (model_outcome p) = true.
 Proof.
-  intro NF. unfold outcome_okb, model_outcome. destruct (expect_failed p) eqn:EF.
-  - rewrite andb_true_r in NF. rewrite NF, final_outcome_snoc. reflexivity.
-  - assert (S : (if setup_raises p then [] else @nil exck) = []) by (destruct (setup_raises p); reflexivity).
-    rewrite S, app_nil_r. unfold any_raise, explicit_raise. rewrite executed_all_exec.
+  unfold outcome_okb, model_outcome. destruct (expect_failed p) eqn:EF.
+  - rewrite final_outcome_snoc. reflexivity.
+  - rewrite app_nil_r. unfold any_raise, explicit_raise. rewrite executed_all_exec.
     destruct (existsb raises_step (flat_map exec (phases p))) eqn:AR; simpl.
     + destruct (existsb (fun s => is_raise (s_kind s)) (flat_map exec (phases p))) eqn:ER; simpl; [reflexivity|].
       rewrite (final_outcome_all_fail _ (excs_of_nonempty _ AR) (excs_of_fail _ ER)). reflexivity.
@@ -397,14 +394,13 @@ Qed.
 Lemma list_list_bool_refl (l : list (list bool)) : list_eqb (list_eqb Bool.eqb) l l = true.
 Proof. apply (list_eqb_spec _ (list_eqb_spec Bool.eqb bool_eqb_spec)). reflexivity. Qed.
 
-Theorem test_meets_spec p : wf (ITest p) -> finding_F21 (ITest p) = false ->
-  spec_okb (ITest p) (model (ITest p)) = true.
+Theorem test_meets_spec p : wf (ITest p) -> spec_okb (ITest p) (model (ITest p)) = true.
 Proof.
-  intros [ND [NZ NDpre]] NF. unfold model.
+  intros [ND [NZ NDpre]]. unfold model.
   destruct (run_test_spec p NDpre) as [tail [E [A ND2]]].
   rewrite E. simpl.
   unfold test_okb. simpl.
-  rewrite list_list_bool_refl, (model_outcome_ok p NF). simpl.
+  rewrite list_list_bool_refl, (model_outcome_ok p). simpl.
   (* the payload details answer the wanted ones *)
   set (pre := p_pre p) in *. set (ex := flat_map exec (phases p)) in *.
   unfold all_details in ND, NZ. fold pre in ND, NZ.
@@ -474,9 +470,9 @@ Proof.
   rewrite lit_eq_tok. apply (list_eqb_spec N.eqb N.eqb_eq). reflexivity.
 Qed.
 
-Theorem model_meets_spec i : wf i -> finding_F21 i = false -> spec_okb i (model i) = true.
+Theorem model_meets_spec i : wf i -> spec_okb i (model i) = true.
 Proof.
-  destruct i as [isb s ml np|name modelled hm|p]; intros W NF.
+  destruct i as [isb s ml np|name modelled hm|p]; intros W.
   - apply repr_meets_spec; [assumption|apply agree_always].
   - simpl in W. subst modelled. destruct hm; reflexivity.
   - apply test_meets_spec; assumption.
@@ -524,29 +520,18 @@ Proof.
   apply orb_false_iff in H as [H1 H2]. rewrite H1. destruct (IH H2) as [-> ->]. auto.
 Qed.
 
-(* a mismatching expectThat makes the test a failure whatever else the test does, provided setUp returns *)
-Theorem expect_forces_failure p : NoDup (map fst (p_pre p)) ->
-  setup_raises p = false -> expect_failed p = true ->
+(* a mismatching expectThat, in whichever function that ran, makes the test a failure whatever else the test does *)
+Theorem expect_forces_failure p : NoDup (map fst (p_pre p)) -> expect_failed p = true ->
   r_outcome (run_test p) = Failure /\ r_raised (run_test p) = map exp_raised (phases p).
 Proof.
-  intros ND SR EF. destruct (run_test_spec p ND) as [tail [E _]]. rewrite E. simpl. split; [|reflexivity].
-  unfold model_outcome. rewrite SR, EF. apply final_outcome_snoc.
+  intros ND EF. destruct (run_test_spec p ND) as [tail [E _]]. rewrite E. simpl. split; [|reflexivity].
+  unfold model_outcome. rewrite EF. apply final_outcome_snoc.
 Qed.
 
-(* finding F21: the faithful model does not meet the statement when setUp raises after an expectThat mismatched *)
+(* the former finding F21 (repaired by /repo 889980a): expectThat mismatches in setUp, setUp then skips *)
 Definition witness_F21 : prog :=
   {| p_pre := []; p_setup := [{| s_kind := ExpectThat; s_mis := Some [("a", 1)] |}; {| s_kind := Raise XSkip; s_mis := None |}];
      p_body := []; p_teardown := []; p_cleanups := [] |}.
-Theorem refuted_F21 :
-  exists i, wf i /\ agree i = true /\ finding_F21 i = true /\ spec_okb i (model i) = false
-            /\ model i = OTest [[false; true]] true Skip [("a", 1)].
-Proof.
-  exists (ITest witness_F21). split; [|repeat split; vm_compute; reflexivity].
-  simpl. unfold all_details. simpl. repeat split.
-  - repeat constructor. intros [].
-  - intros [H|[]]. discriminate.
-  - constructor.
-Qed.
 
 (* ---------- the executable statement implies the readable one ---------- *)
 Lemma count_nat_notin t l : ~ In t l -> count_nat t l = 0.
